@@ -107,12 +107,15 @@ def generate(rng, i):
     if rng.random() < 0.15:
         env["delay"] = 1
     own_step = rng.randint(0, n - 3) if phase == "own_costs" else None
+    liquidate_when_broke = phase == "latent" and rng.random() < 0.5
     script = [{"op": "reset", "env": 0, "fold": None, "np_seed": rng.randrange(2 ** 31)}]
     nsteps = n - 1 + rng.randint(0, 3)       # includes a tail of calls after the end
     for k in range(nsteps):
         a = [w] + ([rng.choice([0.0, 0.2])] if two else [])
         if phase == "own_costs":
             a = [0.0] * len(a) if k < own_step else [w * (1.0 + 0.1 * k)] + a[1:]
+        elif liquidate_when_broke and k >= kshock - 1:
+            a = [0.0] * len(a)            # the decision arriving at a broke account asks to liquidate everything
         script.append({"op": "step", "env": 0, "action": a})
     script.append({"op": "reset", "env": 0, "fold": None, "np_seed": rng.randrange(2 ** 31)})
     for k in range(rng.randint(1, 2)):
